@@ -191,6 +191,7 @@ class Program:
 
 
 FIELDS: dict[str, int] = {ELEM: 0}
+EXTERNALS: dict[str, int] = {}   # library functions that were called but not inlined (trusted pure)
 
 
 def fid(name: str) -> int:
@@ -318,8 +319,12 @@ class Lowerer:
                 m = self.materialise(it)
                 self.emit(("store", v, fid(ELEM), m.var))
             return AV(var=v, ty=HeapTuple([PRIM if i.is_prim() else (i.ty if i.items is None else UNKNOWN) for i in av.items]))
-        if av.func is not None or av.has_pyobj or av.bmeth or av.gen or av.iterkind:
-            # functions, classes, constants, iterators: immutable as far as this analysis goes
+        if av.gen is not None:
+            raise Unsupported("a generator object used outside a for loop (its body would not be analysed)")
+        if av.iterkind is not None and av.iterkind[0] not in ("range", "keys"):
+            raise Unsupported(f"a lazy {av.iterkind[0]}() object stored or passed on instead of being iterated")
+        if av.func is not None or av.has_pyobj or av.bmeth or av.iterkind:
+            # functions, classes, constants, ranges: immutable as far as this analysis goes
             if av.has_pyobj and not self.is_immutable_pyobj(av.pyobj):
                 v = self.tmp("glob")
                 self.emit(("ext", v))
@@ -449,6 +454,9 @@ class Lowerer:
             self.ambient.append(f"{mod}.{name}")
         if not mod.startswith(PURE_MODULES):
             raise Unsupported(f"call of {mod}.{name} (neither inlined nor listed as pure)")
+        if mod == "typing" and name == "cast":
+            return args[1]
+        EXTERNALS[f"{mod}.{name}"] = EXTERNALS.get(f"{mod}.{name}", 0) + 1
         if name.endswith("__iadd__"):
             tgt = self.materialise(args[0])
             src = self.materialise(args[1])
@@ -1815,6 +1823,7 @@ if __name__ == "__main__":
     ents = lower_all()
     ok = [e for e in ents if e["prog"] is not None]
     print(f"{len(ok)}/{len(ents)} methods lowered")
+    print("externals (not inlined, trusted not to write their arguments):", EXTERNALS)
     import collections
     errs = collections.Counter(e["error"] for e in ents if e["prog"] is None)
     for k, v in errs.most_common():
